@@ -96,6 +96,25 @@ PlainCommit(s, b, tbl) ==
       w == SetWithLog(s.refs, s.logs, b, r[2], 0)
   IN [s EXCEPT !.commits = r[1], !.refs = w.refs, !.logs = w.logs]
 
+(* `wrgl reapply TX` (transaction.Reapply, never failure-injected here): every  *)
+(* branch that the committed transaction moved gets a NEW commit carrying  *)
+(* the table of the commit the transaction put there, on top of whatever   *)
+(* the branch has now - unless the branch still points at that very        *)
+(* commit.  History is not altered: the old head stays an ancestor.  The   *)
+(* new commit belongs to no transaction (message "reapply [tx/..]", log    *)
+(* entry without a transaction id).  Refused unless tx is committed.       *)
+LastTxEntry(s, tx, b) ==
+  LogOf(s.logs, b)[CHOOSE i \in TxEntries(s, tx, b) : \A k \in TxEntries(s, tx, b) : k <= i]
+RECURSIVE ReapplyOver(_, _, _)
+ReapplyOver(s, tx, B) ==
+  IF B = {} THEN s
+  ELSE LET b   == CHOOSE x \in B : TRUE
+           new == LastTxEntry(s, tx, b)[2]
+           s1  == IF HeadOf(s, b) = new THEN s ELSE PlainCommit(s, b, s.commits[new].tbl)
+       IN ReapplyOver(s1, tx, B \ {b})
+ReapplyOk(s, tx) == StatusOf(s, tx) = "committed"
+Reapply(s, tx) == IF ReapplyOk(s, tx) THEN ReapplyOver(s, tx, {b \in DOMAIN s.logs : Logged(s, tx, b)}) ELSE s
+
 -----------------------------------------------------------------------------
 (* the store operations of a run *)
 
@@ -274,6 +293,13 @@ APlain(b) ==
   /\ budget' = [budget EXCEPT !.plain = @ - 1]
   /\ UNCHANGED run
 
+(* `wrgl reapply` of a committed transaction (counted as a plain commit) *)
+AReapply(tx) ==
+  /\ Idle /\ budget.plain > 0 /\ ReapplyOk(st, tx)
+  /\ st' = Reapply(st, tx)
+  /\ budget' = [budget EXCEPT !.plain = @ - 1]
+  /\ UNCHANGED run
+
 (* CommitTx / Discard / Rerun start here *)
 ABegin(kind, tx) ==
   /\ Idle
@@ -296,6 +322,7 @@ ACrash == Running(run) /\ budget.faults > 0 /\ Become(Stop(cfg, "crashed"))
 MCNext ==
   \/ \E tx \in MCTxs, b \in MCBranches : AStage(tx, b)
   \/ \E b \in MCBranches : APlain(b)
+  \/ \E tx \in MCTxs : AReapply(tx)
   \/ \E kind \in {"commit", "discard"}, tx \in MCTxs : ABegin(kind, tx)
   \/ \E b \in MCBranches : ANewCommit(b) \/ ADeleteStaged(b)
   \/ AMoveBranch \/ AMarkCommitted \/ ADeleteTxRow
@@ -318,6 +345,25 @@ TypeOK == /\ run.res \in {"idle", "running", "ok", "err", "crashed"}
 (* action properties *)
 DiscardKeepsHeads ==
   [][(run'.kind = "discard" /\ run' # run) => (st'.refs = st.refs /\ st'.logs = st.logs)]_vars
+
+(* no step ever rewrites history: what a branch pointed at stays among the ancestors of what it points at *)
+RECURSIVE AncSelf(_, _)
+AncSelf(s, id) == IF id = None THEN {} ELSE {id} \cup AncSelf(s, s.commits[id].par)
+HistoryKept ==
+  [][\A b \in MCBranches : HeadOf(st, b) # None => HeadOf(st, b) \in AncSelf(st', HeadOf(st', b))]_vars
+(* a reapplied transaction's data is on every branch it had moved, nothing else moved, and the transaction *)
+(* itself (status, staged refs, its own log entries) is as before                                        *)
+ReapplyLaw ==
+  Idle => \A tx \in MCTxs : ReapplyOk(st, tx) =>
+    LET s2 == Reapply(st, tx) IN
+    /\ \A b \in MCBranches :
+         IF Logged(st, tx, b)
+         THEN /\ s2.commits[HeadOf(s2, b)].tbl = st.commits[LastTxEntry(st, tx, b)[2]].tbl
+              /\ HeadOf(st, b) \in AncSelf(s2, HeadOf(s2, b))
+              /\ Len(LogOf(s2.logs, b)) \in {Len(LogOf(st.logs, b)), Len(LogOf(st.logs, b)) + 1}
+         ELSE HeadOf(s2, b) = HeadOf(st, b) /\ LogOf(s2.logs, b) = LogOf(st.logs, b)
+    /\ s2.status = st.status /\ s2.staged = st.staged
+    /\ \A b \in MCBranches : TxEntries(s2, tx, b) = TxEntries(st, tx, b)
 
 StartsRun == ~Running(run) /\ run' # run /\ run'.kind \in {"commit", "discard"}
 CommittedRefuses ==
